@@ -390,7 +390,7 @@ func (d *diskFlow) cond(x *Exec, cond ast.Expr, truth bool, s St) ([]St, bool) {
 		}
 		return []St{s}, true
 	}
-	if calleeKey(x.Fn.Info, call) == "disk.isSizeMismatch" && d.top == kGet && s.Get("validated") == "unchecked-length" && len(call.Args) == 2 {
+	if canonPred(x.Fn.P, calleeKey(x.Fn.Info, call)) == "disk.isSizeMismatch" && d.top == kGet && s.Get("validated") == "unchecked-length" && len(call.Args) == 2 {
 		ct := s.Get("copied")
 		a0, _ := d.base.Term(x, call.Args[0], s)
 		a1, _ := d.base.Term(x, call.Args[1], s)
